@@ -7741,15 +7741,15 @@ func (*InclusiveRangeType) IsStorable(_ map[*Member]bool) bool {
 }
 
 func (t *InclusiveRangeType) IsExportable(results map[*Member]bool) bool {
-	return t.MemberType.IsExportable(results)
+	return t.MemberType != nil && t.MemberType.IsExportable(results)
 }
 
 func (t *InclusiveRangeType) IsImportable(results map[*Member]bool) bool {
-	return t.MemberType.IsImportable(results)
+	return t.MemberType != nil && t.MemberType.IsImportable(results)
 }
 
 func (t *InclusiveRangeType) IsEquatable() bool {
-	return t.MemberType.IsEquatable()
+	return t.MemberType != nil && t.MemberType.IsEquatable()
 }
 
 func (*InclusiveRangeType) IsComparable() bool {
@@ -7822,6 +7822,7 @@ func (t *InclusiveRangeType) Instantiate(
 			TypeArgumentCount:  typeArgumentCount,
 			Range:              getRange(),
 		})
+		memberType = InvalidType
 	}
 
 	// memberType must only be a leaf integer type.
@@ -7912,6 +7913,13 @@ func (t *InclusiveRangeType) GetMembers() map[string]MemberResolver {
 	}
 
 	// Compute members and cache them
+	// NOTE: the member type is nil if the type is not instantiated.
+	// An error is reported for such a type, but its members might still get accessed
+	memberType := t.MemberType
+	if memberType == nil {
+		memberType = InvalidType
+	}
+
 	computedMembers := withBuiltinMembers(
 		t,
 		map[string]MemberResolver{
@@ -7927,7 +7935,7 @@ func (t *InclusiveRangeType) GetMembers() map[string]MemberResolver {
 						memoryGauge,
 						t,
 						identifier,
-						t.MemberType,
+						memberType,
 						inclusiveRangeTypeStartFieldDocString,
 					)
 				},
@@ -7944,7 +7952,7 @@ func (t *InclusiveRangeType) GetMembers() map[string]MemberResolver {
 						memoryGauge,
 						t,
 						identifier,
-						t.MemberType,
+						memberType,
 						inclusiveRangeTypeEndFieldDocString,
 					)
 				},
@@ -7961,7 +7969,7 @@ func (t *InclusiveRangeType) GetMembers() map[string]MemberResolver {
 						memoryGauge,
 						t,
 						identifier,
-						t.MemberType,
+						memberType,
 						inclusiveRangeTypeStepFieldDocString,
 					)
 				},
@@ -7974,7 +7982,7 @@ func (t *InclusiveRangeType) GetMembers() map[string]MemberResolver {
 					targetRange ast.HasPosition,
 					report func(error),
 				) *Member {
-					elementType := t.MemberType
+					elementType := memberType
 
 					return NewPublicFunctionMember(
 						memoryGauge,
@@ -8004,6 +8012,10 @@ func (t *InclusiveRangeType) Unify(
 ) bool {
 	otherRange, ok := other.(*InclusiveRangeType)
 	if !ok {
+		return false
+	}
+
+	if t.MemberType == nil {
 		return false
 	}
 
